@@ -9,6 +9,7 @@ import TssVerif.Core.Blame
 import TssVerif.Core.BlameEc
 import TssVerif.Core.BlameRs
 import TssVerif.Core.BlameSg
+import TssVerif.Core.BlameSg9
 /-! Line-protocol ops for signing arithmetic. -/
 namespace TssVerif.OpsSign
 open TssVerif Wire OpsCrypto Sign
@@ -244,6 +245,21 @@ def run (op : String) (args : List String) : Option String :=
         | .pass l => "pass points=" ++ rList (fun (v, a) => rPoint v ++ "+" ++ rPoint a) l
         | .fail why c => "fail culprits=" ++ toString c ++ " " ++ why.replace " " "-")
     | _, _, _ => none
+  | "ec_sg_round9", [checkPoints, ownIdx, ownU, ownT, peers] =>
+    -- peers: `idx/commitment/de-commitment` separated by `;`
+    let pPeer (s : String) : Option BlameSg.R8Peer :=
+      match s.splitOn "/" with
+      | [idx, c, d] =>
+        match pDec idx, pNat c, pList pNat d with
+        | some idx, some c, some d => some ⟨idx, c, d⟩
+        | _, _, _ => none
+      | _ => none
+    match pDec ownIdx, pPoint ownU, pPoint ownT, (peers.splitOn ";").mapM pPeer with
+    | some ownIdx, some u, some t, some peers =>
+      some ((BlameSg.round9 Secp256k1.curve Sha512.sha512_256 (checkPoints == "1") ownIdx u t peers).render fun
+        | .pass _ => "pass"
+        | .fail why c => "fail culprits=" ++ toString c ++ " " ++ why.replace " " "-")
+    | _, _, _, _ => none
   | "engine2_trace", [proto, role, nOld, nNew, self, evs] =>
     match Engine2.findProto proto, pDec nOld, pDec nNew, pDec self with
     | some p, some nOld, some nNew, some self =>
